@@ -9,6 +9,7 @@
 package c22
 
 import (
+	"encoding/json"
 	"fmt"
 	"os"
 	"path/filepath"
@@ -590,7 +591,7 @@ func randomGraph(c *reg.Ctx) *graph {
 		}
 	}
 	for k := 0; k < nact; k++ {
-		if c.Rand.Intn(5) == 0 {
+		if k > 0 && c.Rand.Intn(5) == 0 {
 			g.Acts = append(g.Acts, flag(c.Rand.Intn(3), c.Rand.Intn(3) == 0))
 			continue
 		}
@@ -697,6 +698,25 @@ func run(c *reg.Ctx) {
 		c.Scratch = p
 	}
 	no := 0
+	// corpus: graphs (or replay files, which hold the graph under case.desc.graph)
+	for _, b := range c.Corpus {
+		var rp struct {
+			Case struct {
+				Desc struct {
+					Graph *graph `json:"graph"`
+				} `json:"desc"`
+			} `json:"case"`
+		}
+		var g graph
+		if json.Unmarshal(b, &rp) == nil && rp.Case.Desc.Graph != nil {
+			g = *rp.Case.Desc.Graph
+		} else if json.Unmarshal(b, &g) != nil || len(g.Mods) == 0 {
+			continue
+		}
+		g.Via = "corpus"
+		emit(c, no, &g)
+		no++
+	}
 	for _, g := range planted() {
 		emit(c, no, g)
 		no++
